@@ -1,9 +1,9 @@
 #!/usr/bin/env python3
-# Applies every seeded change under /verif/seeded/<id>/patch.diff to a scratch worktree of /repo (HEAD) in turn, runs the check of
+# Applies every seeded change under /verif/seeded/<id>/patch.diff to a scratch worktree of /repo (HEAD, or the commit named by VERIF_REF) in turn, runs the check of
 # its property against that worktree (--repo), and prints which checks caught which change. /repo itself is not touched.
 import json,os,subprocess,sys
 WT='/tmp/seeded-wt-%d'%os.getpid()
-assert subprocess.run(['git','-C','/repo','worktree','add','--detach',WT,'HEAD'],capture_output=True,text=True).returncode==0
+assert subprocess.run(['git','-C','/repo','worktree','add','--detach',WT,os.environ.get('VERIF_REF','HEAD')],capture_output=True,text=True).returncode==0
 import atexit
 atexit.register(lambda: subprocess.run(['git','-C','/repo','worktree','remove','--force',WT],capture_output=True))
 only=sys.argv[1:] 
@@ -24,5 +24,12 @@ for d in sorted(os.listdir('/verif/seeded')):
             obl=[l.strip() for l in c.stdout.splitlines()+c.stderr.splitlines() if l.strip().startswith('obligation ')]
             rows.append((d,prop,f'exit={c.returncode}', '; '.join(o.split(' [')[0].replace('obligation ','') for o in obl)[:300] or ' '.join(viol)[:200]))
     finally:
-        subprocess.run(['git','-C',WT,'checkout','--','.'],check=True)
+        subprocess.run(['git','-C',WT,'checkout','--','.'],check=True); subprocess.run(['git','-C',WT,'clean','-fdq'])
 for r in rows: print(' | '.join(r))
+# keep the last result per change for the tables of DESIGN Appendix G.1 (tools_design_g1.py)
+RES='/verif/seeded/RESULTS.json'
+try: res=json.load(open(RES))
+except Exception: res={}
+for r in rows:
+    if len(r)==4: res.setdefault(r[0],{})[r[1]]={'exit':r[2],'obligations':r[3]}
+json.dump(res,open(RES,'w'),indent=1,sort_keys=True)
